@@ -738,6 +738,156 @@ def control(repo_src, tree):
     return '\n'.join(parts)
 
 
+# ---------------------------------------------------------------------------
+# The segment-producing part of ContactHandler._process_queue (everything from the
+# "waiting on ACK" test to the end)  ->  Gen/TcpclSendNext.v
+#
+# Inputs of the generated function: the segment size in use, _tx_length (which is also the
+# position of the item's file: every octet read is counted), the item's total_length,
+# _do_send_ack_final and whether the 'private_extensions' test switch is on.  Statement forms
+# (in this order, fail closed otherwise):
+#   if <cmp-cond>: return False                                   None (nothing is sent)
+#   flg = 0 ; ext_items = []
+#   if 'private_extensions' in self._config.enable_test: ext_items.append(<the dummy item>)
+#   if <cmp-cond>: flg |= ...Flag.START ; ext_items.append(<TransferTotalLength(total_length=...)>)
+#   data = self._tx_tmp.file.read(self._send_segment_size)        dlen := min seg_size (total - tx_length)
+#   self._tx_length += len(data)
+#   if <cmp-cond>: flg |= ...Flag.END
+#   self.send_xfer_data(self._tx_tmp.transfer_id, data, flg, ext_items)
+#   self._segment_tx_times[self._tx_length] = datetime...         skipped (controller bookkeeping)
+#   if flg & ...Flag.END: [if not self._do_send_ack_final: <report 'unacknowledged' and drop from the map>]
+#                         self._tx_pend_ack.add(self._tx_tmp) ; self._tx_teardown()
+#   return False
+# <cmp-cond>: ==, !=, <, <=, >, >= between self._tx_length, self._tx_tmp.total_length and
+# integer constants, combined with not / and / or.
+
+SN_NAMES = {'self._tx_length': 'tx_length', 'self._tx_tmp.total_length': 'total'}
+SN_FLAG = {'messages.TransferSegment.Flag.START': 2, 'messages.TransferSegment.Flag.END': 1}
+
+
+def sn_int(node):
+    text = ast.unparse(node)
+    if text in SN_NAMES:
+        return SN_NAMES[text]
+    if isinstance(node, ast.Constant) and isinstance(node.value, int) and not isinstance(node.value, bool) \
+            and node.value >= 0:
+        return str(node.value)
+    raise Shape('send-next: unexpected integer %s' % text)
+
+
+def sn_cond(node):
+    if isinstance(node, ast.UnaryOp) and isinstance(node.op, ast.Not):
+        return '(negb %s)' % sn_cond(node.operand)
+    if isinstance(node, ast.BoolOp):
+        oper = ' && ' if isinstance(node.op, ast.And) else ' || '
+        return '(' + oper.join(sn_cond(val) for val in node.values) + ')'
+    if isinstance(node, ast.Compare) and len(node.ops) == 1:
+        (left, right) = (sn_int(node.left), sn_int(node.comparators[0]))
+        oper = node.ops[0]
+        table = {ast.Eq: '(%s =? %s)', ast.NotEq: '(negb (%s =? %s))', ast.Lt: '(%s <? %s)', ast.LtE: '(%s <=? %s)'}
+        for (cls, fmt) in table.items():
+            if isinstance(oper, cls):
+                return fmt % (left, right)
+        if isinstance(oper, ast.Gt):
+            return '(%s <? %s)' % (right, left)
+        if isinstance(oper, ast.GtE):
+            return '(%s <=? %s)' % (right, left)
+    raise Shape('send-next: unexpected condition %s' % ast.unparse(node))
+
+
+def flag_or(stmt):
+    if isinstance(stmt, ast.AugAssign) and isinstance(stmt.op, ast.BitOr) and ast.unparse(stmt.target) == 'flg' \
+            and ast.unparse(stmt.value) in SN_FLAG:
+        return SN_FLAG[ast.unparse(stmt.value)]
+    return None
+
+
+def sendnext(tree):
+    func = find_func(tree, 'ContactHandler', '_process_queue')
+    body = [stmt for stmt in func.body if not is_doc(stmt) and not is_logger(stmt)]
+    idx = [num for (num, stmt) in enumerate(body) if isinstance(stmt, ast.If) and ast.unparse(stmt.test) == WAIT_ACK_TEST]
+    start = None
+    for (num, stmt) in enumerate(body):
+        if isinstance(stmt, ast.If) and len(stmt.body) == 1 and ast.unparse(stmt.body[0]) == 'return False' \
+                and not stmt.orelse and num + 1 < len(body) and ast.unparse(body[num + 1]) == 'flg = 0':
+            start = num
+    if start is None:
+        raise Shape('send-next: the waiting-on-ACK test followed by flg = 0 was not found')
+    if idx != [start]:
+        raise Shape('send-next: the waiting-on-ACK test is not the one the guard translation stops at')
+    stmts = body[start:]
+    texts = [ast.unparse(stmt) for stmt in stmts]
+    if len(stmts) != 12:
+        raise Shape('send-next: expected 12 statements, found %d: %s' % (len(stmts), texts))
+    lines = []
+    wait = sn_cond(stmts[0].test)
+    if texts[1] != 'flg = 0' or texts[2] != 'ext_items = []':
+        raise Shape('send-next: initialisation changed')
+    priv = stmts[3]
+    if not (isinstance(priv, ast.If) and ast.unparse(priv.test) == "'private_extensions' in self._config.enable_test"
+            and not priv.orelse and len(priv.body) == 1 and ast.unparse(priv.body[0]).startswith('ext_items.append(')
+            and 'TransferPrivateDummy' in ast.unparse(priv.body[0])):
+        raise Shape('send-next: private-extension block changed')
+    first = stmts[4]
+    if not (isinstance(first, ast.If) and not first.orelse and len(first.body) == 2 and flag_or(first.body[0]) == 2
+            and ast.unparse(first.body[1]) == 'ext_items.append(messages.TransferExtendHeader() / '
+            'extend.TransferTotalLength(total_length=self._tx_tmp.total_length))'):
+        raise Shape('send-next: START block changed: %s' % texts[4])
+    lines.append('let start := %s in' % sn_cond(first.test))
+    lines.append('let flg := if start then N.lor 0 2 else 0 in')
+    lines.append('let ext_total := if start then Some total else None in')
+    if texts[5] != 'data = self._tx_tmp.file.read(self._send_segment_size)':
+        raise Shape('send-next: read changed: %s' % texts[5])
+    lines.append('let dlen := N.min seg_size (total - tx_length) in')
+    if texts[6] != 'self._tx_length += len(data)':
+        raise Shape('send-next: offset bookkeeping changed: %s' % texts[6])
+    lines.append('let tx_length := tx_length + dlen in')
+    last = stmts[7]
+    if not (isinstance(last, ast.If) and not last.orelse and len(last.body) == 1 and flag_or(last.body[0]) == 1):
+        raise Shape('send-next: END block changed: %s' % texts[7])
+    lines.append('let flg := if %s then N.lor flg 1 else flg in' % sn_cond(last.test))
+    if texts[8] != 'self.send_xfer_data(self._tx_tmp.transfer_id, data, flg, ext_items)':
+        raise Shape('send-next: send_xfer_data call changed: %s' % texts[8])
+    if not texts[9].startswith('self._segment_tx_times[self._tx_length] = datetime.datetime.now('):
+        raise Shape('send-next: transmit-time bookkeeping changed: %s' % texts[9])
+    fin = stmts[10]
+    if not (isinstance(fin, ast.If) and not fin.orelse
+            and ast.unparse(fin.test) == 'flg & messages.TransferSegment.Flag.END'):
+        raise Shape('send-next: final block test changed: %s' % texts[10])
+    fbody = [ast.unparse(stmt) for stmt in fin.body]
+    unack = ("if not self._do_send_ack_final:\n    self.send_bundle_finished(str(self._tx_tmp.transfer_id), "
+             "self._tx_tmp.file.tell(), 'unacknowledged')\n    self._tx_map.pop(self._tx_tmp.transfer_id)")
+    if fbody == [unack, 'self._tx_pend_ack.add(self._tx_tmp)', 'self._tx_teardown()']:
+        pass
+    else:
+        raise Shape('send-next: final block changed: %s' % fbody)
+    if texts[11] != 'return False':
+        raise Shape('send-next: trailing statements changed')
+    lines.append('let at_end := has_end flg in')
+    lines.append('Some (mkSegOut flg ext_total priv_ext dlen tx_length at_end (at_end && negb ack_final))')
+    parts = [
+        '(** GENERATED by translate/targets/tcpclhandlers.py from tcpcl/session.py -- do not edit. *)',
+        'From Coq Require Import List NArith Bool.',
+        'From DTN Require Import Lib.Bytes Model.TcpclMsg.',
+        'Local Open Scope N_scope.',
+        '',
+        '(** What one pass of the segment-producing part of _process_queue does: the flags of the',
+        '    segment sent, the total length carried by its transfer-length extension item (if any),',
+        '    whether the private test extension is added, the number of octets read from the file,',
+        '    the new _tx_length, whether the item moves to _tx_pend_ack with _tx_teardown(), and',
+        '    whether it is reported "unacknowledged" and dropped from the map at once. *)',
+        'Record seg_out := mkSegOut {',
+        '  so_flags : N; so_ext_total : option N; so_priv : bool; so_dlen : N; so_newlen : N;',
+        '  so_moved : bool; so_unack : bool }.',
+        '',
+        '(** None: nothing more to send, waiting for the final acknowledgement. *)',
+        'Definition gen_send_next (seg_size tx_length total : N) (ack_final priv_ext : bool) : option seg_out :=',
+        '  if %s then None' % wait,
+        '  else',
+    ] + ['    ' + line for line in lines]
+    return '\n'.join(parts) + '.\n'
+
+
 def close_flush(tree):
     # ContactHandler.close: the report loop over the unstarted transfers must come first, then the
     # removal from the bus and Messenger.close (nothing may be reported after the connection is down)
@@ -780,4 +930,5 @@ def generate(repo_src):
     for name in ('recv_xfer_ack', 'recv_xfer_refuse', 'recv_sess_term', 'recv_xfer_data'):
         parts.append(handler(tree, name))
     return {'Gen/TcpclHandlers.v': '\n'.join(parts), 'Gen/TcpclControl.v': control(repo_src, tree),
-            'Gen/TcpclClose.v': close_flush(tree)}
+            'Gen/TcpclClose.v': close_flush(tree),
+            'Gen/TcpclSendNext.v': sendnext(tree)}
